@@ -840,13 +840,9 @@ impl Hist {
 			let target_mined = self.target_mined(i, id, slate);
 			let r = guarded(|| owner::cancel_tx(inst, mask.as_ref(), &None, id, slate));
 			let rc = rc_of(&r);
-			// (an error from the update part — not a refusal of the cancel itself — is not followed; without
-			// the separate update before it an error may come from either part)
-			let nomodel = if direct {
-				rc != vec![0]
-			} else {
-				!(rc == vec![0] || rc == vec![1, 9] || rc == vec![1, 10])
-			};
+			// (an error other than a refusal of the cancel itself comes from the update part and is not
+			// followed; since the fix of the TTL step the update part has no refusals of its own)
+			let nomodel = !(rc == vec![0] || rc == vec![1, 9] || rc == vec![1, 10]);
 			self.record(
 				i,
 				json!({"k": "cancel", "id": id, "slate": snum, "via_owner": true, "tip": tip, "parent": parent,
